@@ -27,6 +27,8 @@ struct Thr
   State st = RUNNABLE;
   const void *on = nullptr;
   bool awake_from_cv = false;
+  bool timed = false;     // sleeping in wait_for / wait_until: may also be woken by a timeout
+  bool timed_out = false; // the last wake-up was a timeout
   std::condition_variable cv;
 };
 struct Event
@@ -126,6 +128,23 @@ struct Sched
           sl.push_back((int)i);
       if (!sl.empty())
         thr[sl[next_rand() % sl.size()]]->st = RUNNABLE; // spurious wake-up (allowed by the C++ standard)
+    }
+    // timed waits: a timeout may fire at any scheduling decision (5%), and must fire when nothing else can run
+    {
+      std::vector<int> tw;
+      bool any_runnable = false;
+      for (size_t i = 0; i < thr.size(); ++i)
+      {
+        if (thr[i]->st == BLOCKED_CV && thr[i]->timed)
+          tw.push_back((int)i);
+        any_runnable = any_runnable || thr[i]->st == RUNNABLE;
+      }
+      if (!tw.empty() && (!any_runnable || next_rand() % 100 < 5))
+      {
+        Thr *t = thr[tw[next_rand() % tw.size()]];
+        t->st = RUNNABLE;
+        t->timed_out = true;
+      }
     }
     std::vector<int> en;
     for (size_t i = 0; i < thr.size(); ++i)
@@ -312,13 +331,17 @@ class vsched_condition_variable
 public:
   vsched_condition_variable() {}
   vsched_condition_variable(const vsched_condition_variable &) = delete;
-  void wait(std::unique_lock<vsched_mutex> &l)
+  // returns true when the wake-up was a timeout (only possible for timed waits)
+  bool wait_impl(std::unique_lock<vsched_mutex> &l, bool timed)
   {
     vsched::Sched &s = vsched::S();
     vsched_mutex *m = l.mutex();
+    bool to = false;
     {
       std::unique_lock<std::mutex> lk(s.G);
       vsched::Thr *me = s.thr[s.current];
+      me->timed = timed;
+      me->timed_out = false;
       // atomically release the mutex and go to sleep
       m->owner = -1;
       for (size_t i = 0; i < s.thr.size(); ++i)
@@ -331,14 +354,45 @@ public:
       s.switch_from(me, lk); // returns when notified and scheduled: that is the wake-up step
       vsched::Event e2 = {me->id, WV_EV_WAKE, 0, 0};
       s.events.push_back(e2);
+      to = me->timed_out;
+      me->timed = false;
+      me->timed_out = false;
     }
     m->acquire_blocking();
+    return to;
   }
+  void wait(std::unique_lock<vsched_mutex> &l) { wait_impl(l, false); }
   template <class P>
   void wait(std::unique_lock<vsched_mutex> &l, P pred)
   {
     while (!pred())
       wait(l);
+  }
+  template <class R, class Pd>
+  std::cv_status wait_for(std::unique_lock<vsched_mutex> &l, const std::chrono::duration<R, Pd> &)
+  {
+    return wait_impl(l, true) ? std::cv_status::timeout : std::cv_status::no_timeout;
+  }
+  template <class R, class Pd, class P>
+  bool wait_for(std::unique_lock<vsched_mutex> &l, const std::chrono::duration<R, Pd> &, P pred)
+  {
+    while (!pred())
+      if (wait_impl(l, true))
+        return pred();
+    return true;
+  }
+  template <class C, class D>
+  std::cv_status wait_until(std::unique_lock<vsched_mutex> &l, const std::chrono::time_point<C, D> &)
+  {
+    return wait_impl(l, true) ? std::cv_status::timeout : std::cv_status::no_timeout;
+  }
+  template <class C, class D, class P>
+  bool wait_until(std::unique_lock<vsched_mutex> &l, const std::chrono::time_point<C, D> &, P pred)
+  {
+    while (!pred())
+      if (wait_impl(l, true))
+        return pred();
+    return true;
   }
   void notify_all()
   {
